@@ -85,8 +85,8 @@ Fixpoint plx_at (cs : list string) (rs : list (list val)) (i : nat) (x : plx) : 
   end.
 
 (* ------------------------------------------------------------------ _populate_expr_impl_map / impl_map_arbitrary_arity *)
-Definition one_col := "_da_temp_one_column".
-Definition zero_col := "_da_temp_zero_column".
+Definition one_base := "_da_temp_one_column".
+Definition zero_base := "_da_temp_zero_column".
 Definition lit_int (z : Z) : plx := PLit (qn (inject_Z z)).       (* _build_lit(int) *)
 
 Definition fold1 (f : plx -> plx -> plx) (xs : list plx) : res plx :=
@@ -103,12 +103,13 @@ Definition int_lit_of (x : plx) : option Z :=
 (* ext = extend_context (also used by select_rows); false = project_context.  First the map of the exact arity, then
    impl_map_arbitrary_arity (arity > 0).  `cumsum`, `cummax`, `cummin`, `cumprod` are not attributes of polars.Expr any
    more: calling the lambda raises AttributeError. *)
-Definition impl (ext : bool) (op : string) (xs : list plx) : res plx :=
+(* one = the name this step chose for its scratch column of ones (_populate_expr_impl_map(one_column_name=...)) *)
+Definition impl (one : string) (ext : bool) (op : string) (xs : list plx) : res plx :=
   match xs with
   | [] =>
-      if mem op ["size"; "_size"] then Ok (PAgg ASum (PCol one_col))
+      if mem op ["size"; "_size"] then Ok (PAgg ASum (PCol one))
       else if mem op ["count"; "_count"; "cumcount"; "_cumcount"; "row_number"; "_row_number"]
-           then (if ext then Raise else Ok (PAgg ASum (PCol one_col)))
+           then (if ext then Raise else Ok (PAgg ASum (PCol one)))
       else Unmodelled
   | [x] =>
       match op with
@@ -122,7 +123,7 @@ Definition impl (ext : bool) (op : string) (xs : list plx) : res plx :=
       | "coalesce0" => Ok (PCoalesce x (lit_int 0))
       | "sum" => Ok (PAgg ASum x) | "mean" => Ok (PAgg AMean x) | "min" => Ok (PAgg AMin x) | "max" => Ok (PAgg AMax x)
       | "count" => Ok (count_expr x)
-      | "size" => Ok (PAgg ASum (PCol one_col))
+      | "size" => Ok (PAgg ASum (PCol one))
       | "shift" => Ok (PShift 1 x)
       | "first" => Ok (PFirst x) | "last" => Ok (PLast x)
       | "ffill" => Ok (PFill true x) | "bfill" => Ok (PFill false x)
@@ -154,14 +155,14 @@ Definition impl (ext : bool) (op : string) (xs : list plx) : res plx :=
   end.
 
 (* PolarsExpressionActor: children first, then the method lookup *)
-Fixpoint tr_expr (ext : bool) (e : expr) : res plx :=
+Fixpoint tr_expr (one : string) (ext : bool) (e : expr) : res plx :=
   match e with
   | ECol c => Ok (PCol c)
   | EConst v => Ok (PLit v)
   | EOp op args =>
       rbind ((fix go (l : list expr) : res (list plx) :=
-                match l with [] => Ok [] | a :: t => rbind (tr_expr ext a) (fun x => rbind (go t) (fun xs => Ok (x :: xs))) end) args)
-            (impl ext op)
+                match l with [] => Ok [] | a :: t => rbind (tr_expr one ext a) (fun x => rbind (go t) (fun xs => Ok (x :: xs))) end) args)
+            (impl one ext op)
   end.
 
 (* ExpressionRequirementsCollector: visits every Expression node *)
@@ -245,14 +246,26 @@ Definition pl_join (how : plhow) (left_on right_on : list string) (suffix : stri
 (* ------------------------------------------------------------------ the steps of PolarsModel *)
 Definition nat_str (n : nat) : string := NilZero.string_of_uint (Nat.to_uint n).
 
-Definition req_temps (es : list expr) : list (string * colx) :=
-  (if existsb needs_zero es then [(zero_col, CPlain (lit_int 0))] else []) ++
-  (if existsb needs_one es then [(one_col, CPlain (lit_int 1))] else []).
+(* _unused_column_name(base, taken): "name = base; while name in taken: name = '_' + name" (repair 85ef226: scratch columns are
+   named away from the frame's columns and the step's outputs).  At most |taken| prefixes are ever needed. *)
+Fixpoint unused_name (fuel : nat) (base : string) (taken : list string) : string :=
+  if mem base taken then match fuel with O => base | S f => unused_name f ("_" ++ base)%string taken end else base.
+Definition fresh (base : string) (taken : list string) : string := unused_name (S (List.length taken)) base taken.
+(* _unused_column_suffix(base, columns, taken): extended by '_' until no suffixed column name is in use *)
+Fixpoint unused_suffix (fuel : nat) (suffix : string) (columns taken : list string) : string :=
+  if existsb (fun c => mem (c ++ suffix)%string taken) columns
+  then match fuel with O => suffix | S f => unused_suffix f (suffix ++ "_")%string columns taken end else suffix.
+Definition fresh_suffix (base : string) (names : list string) : string := unused_suffix (S (List.length names)) base names names.
+
+(* ExpressionRequirementsCollector.add_in_temp_columns: the two names are always chosen (zero first), the columns only added when needed *)
+Definition req_temps (z o : string) (es : list expr) : list (string * colx) :=
+  (if existsb needs_zero es then [(z, CPlain (lit_int 0))] else []) ++
+  (if existsb needs_one es then [(o, CPlain (lit_int 1))] else []).
 
 (* "promote value to column for uniformity of API": fn(<constant>) becomes fn(<temporary column holding the constant>) *)
-Definition promote (prefix : string) (ntemps : nat) (e : expr) : option (string * val * expr) :=
+Definition promote (prefix : string) (ntemps : nat) (names : list string) (e : expr) : option (string * val * expr) :=
   match e with
-  | EOp op [EConst v] => let nm := (prefix ++ nat_str ntemps)%string in Some (nm, v, EOp op [ECol nm])
+  | EOp op [EConst v] => let nm := fresh (prefix ++ nat_str ntemps)%string names in Some (nm, v, EOp op [ECol nm])
   | _ => None
   end.
 Definition with_columns_if (t : table) (xs : list (string * colx)) : table :=
@@ -260,55 +273,65 @@ Definition with_columns_if (t : table) (xs : list (string * colx)) : table :=
 Definition select_if {A} (temps : list A) (declared : list string) (t : table) : res table :=
   match temps with [] => Ok t | _ => pl_select declared t end.
 
-Definition extend_part_col := "_da_extend_temp_partition_column".
-Definition project_group_col := "_da_project_temp_group_by_column".
+Definition extend_part_base := "_da_extend_temp_partition_column".
+Definition project_group_base := "_da_project_temp_group_by_column".
 
-(* one iteration of "for k, opk in op.ops.items()" of _extend_step: state = (temp_v_columns, produced_columns) *)
-Definition extend_fold_step (wd : bool) (partition_by : list string)
-    (st : res (list (string * colx) * list (string * colx))) (ke : string * expr) : res (list (string * colx) * list (string * colx)) :=
-  rbind st (fun tp =>
-    let '(temps, produced) := tp in
-    let '(temps', opk) :=
-       if wd then match promote "_da_extend_temp_v_column_" (List.length temps) (snd ke) with
-                  | Some (nm, v, e') => (temps ++ [(nm, CPlain (PLit v))], e')
-                  | None => (temps, snd ke)
+(* one iteration of "for k, opk in op.ops.items()" of _extend_step: state = (temp_v_columns, produced_columns, names_in_use) *)
+Definition extend_fold_step (one : string) (wd : bool) (partition_by : list string)
+    (st : res (list (string * colx) * list (string * colx) * list string)) (ke : string * expr)
+    : res (list (string * colx) * list (string * colx) * list string) :=
+  rbind st (fun tpn =>
+    let '(temps, produced, names) := tpn in
+    let '(temps', opk, names') :=
+       if wd then match promote "_da_extend_temp_v_column_" (List.length temps) names (snd ke) with
+                  | Some (nm, v, e') => (temps ++ [(nm, CPlain (PLit v))], e', nm :: names)
+                  | None => (temps, snd ke, names)
                   end
-       else (temps, snd ke) in
-    rbind (tr_expr true opk) (fun x =>
+       else (temps, snd ke, names) in
+    rbind (tr_expr one true opk) (fun x =>
       let plain := match opk with EOp _ _ => false | _ => true end in      (* is_literal / is_column terms get no .over *)
-      Ok (temps', produced ++ [(fst ke, if wd && negb plain then COver x partition_by else CPlain x)]))).
+      Ok (temps', produced ++ [(fst ke, if wd && negb plain then COver x partition_by else CPlain x)], names'))).
 
-(* _extend_step.  declared = op.columns_produced() *)
+(* _extend_step.  declared = op.columns_produced() = names_in_use at the start *)
 Definition pl_extend_step (declared : list string) (ops : list (string * expr)) (wd : bool) (w : window) (t : table) : res table :=
-  let partition_by := match w_part w with [] => [extend_part_col] | p => p end in
-  let temps0 := match w_part w with [] => [(extend_part_col, CPlain (lit_int 1))] | _ => [] end in
-  let temps1 := temps0 ++ req_temps (map snd ops) in
-  rbind (fold_left (extend_fold_step wd partition_by) ops (Ok (temps1, []))) (fun tp =>
-    let '(temps, produced) := tp in
+  let P := fresh extend_part_base declared in
+  let partition_by := match w_part w with [] => [P] | p => p end in
+  let temps0 := match w_part w with [] => [(P, CPlain (lit_int 1))] | _ => [] end in
+  let names1 := match w_part w with [] => P :: declared | _ => declared end in
+  let z := fresh zero_base names1 in
+  let o := fresh one_base (z :: names1) in
+  let temps1 := temps0 ++ req_temps z o (map snd ops) in
+  rbind (fold_left (extend_fold_step o wd partition_by) ops (Ok (temps1, [], o :: z :: names1))) (fun tpn =>
+    let '(temps, produced, _) := tpn in
     let r1 := with_columns_if t temps in
     let r2 := match w_order w with [] => r1 | ob => pl_sort (map (fun c => (c, mem c (w_rev w))) ob) r1 end in
     let r3 := pl_with_columns r2 produced in
     select_if temps declared r3).
 
 (* one iteration of the loop of _project_step *)
-Definition project_fold_step (st : res (list (string * colx) * list (string * plx))) (ke : string * expr)
-    : res (list (string * colx) * list (string * plx)) :=
-  rbind st (fun tp =>
-    let '(temps, produced) := tp in
-    let '(temps', opk) :=
-       match promote "_da_project_temp_v_column_" (List.length temps) (snd ke) with
-       | Some (nm, v, e') => (temps ++ [(nm, CPlain (PLit v))], e')
-       | None => (temps, snd ke)
+Definition project_fold_step (one : string) (st : res (list (string * colx) * list (string * plx) * list string)) (ke : string * expr)
+    : res (list (string * colx) * list (string * plx) * list string) :=
+  rbind st (fun tpn =>
+    let '(temps, produced, names) := tpn in
+    let '(temps', opk, names') :=
+       match promote "_da_project_temp_v_column_" (List.length temps) names (snd ke) with
+       | Some (nm, v, e') => (temps ++ [(nm, CPlain (PLit v))], e', nm :: names)
+       | None => (temps, snd ke, names)
        end in
-    rbind (tr_expr false opk) (fun x => Ok (temps', produced ++ [(fst ke, x)]))).
+    rbind (tr_expr one false opk) (fun x => Ok (temps', produced ++ [(fst ke, x)], names'))).
 
-(* _project_step *)
-Definition pl_project_step (declared : list string) (ops : list (string * expr)) (gb : list string) (t : table) : res table :=
-  let group_by := match gb with [] => [project_group_col] | g => g end in
-  let temps0 := match gb with [] => [(project_group_col, CPlain (lit_int 1))] | _ => [] end in
-  let temps1 := temps0 ++ req_temps (map snd ops) in
-  rbind (fold_left project_fold_step ops (Ok (temps1, []))) (fun tp =>
-    let '(temps, produced) := tp in
+(* _project_step.  src = op.sources[0].columns_produced(); names_in_use starts as src + the output names *)
+Definition pl_project_step (declared src : list string) (ops : list (string * expr)) (gb : list string) (t : table) : res table :=
+  let names0 := src ++ map fst ops in
+  let G := fresh project_group_base names0 in
+  let group_by := match gb with [] => [G] | g => g end in
+  let temps0 := match gb with [] => [(G, CPlain (lit_int 1))] | _ => [] end in
+  let names1 := match gb with [] => G :: names0 | _ => names0 end in
+  let z := fresh zero_base names1 in
+  let o := fresh one_base (z :: names1) in
+  let temps1 := temps0 ++ req_temps z o (map snd ops) in
+  rbind (fold_left (project_fold_step o) ops (Ok (temps1, [], o :: z :: names1))) (fun tpn =>
+    let '(temps, produced, _) := tpn in
     let r1 := with_columns_if t temps in
     rbind (pl_group_agg group_by produced r1) (fun r2 =>
     rbind (select_if temps declared r2) (fun r3 =>
@@ -319,9 +342,11 @@ Definition pl_project_step (declared : list string) (ops : list (string * expr))
 
 (* _select_rows_step (the expression is translated in extend context) *)
 Definition pl_select_rows_step (declared : list string) (e : expr) (t : table) : res table :=
-  let temps := req_temps [e] in
+  let z := fresh zero_base declared in
+  let o := fresh one_base (z :: declared) in
+  let temps := req_temps z o [e] in
   let r1 := with_columns_if t temps in
-  rbind (tr_expr true e) (fun x => select_if temps declared (pl_filter x r1)).
+  rbind (tr_expr o true e) (fun x => select_if temps declared (pl_filter x r1)).
 
 (* _order_rows_step *)
 Definition pl_order_step (cs rev : list string) (limit : option nat) (t : table) : res table :=
@@ -337,14 +362,12 @@ Definition pl_rename_step (declared : list string) (m : list (string * string)) 
    types; without keys both inputs get a constant scratch column to join on (and "cross" becomes "inner") *)
 Definition sfx (c s : string) : string := (c ++ s)%string.
 Definition coalesce_left_first (c other : string) : plx := PWhen (PIsNull (PCol c)) (PCol other) (PCol c).
-(* "while scratch_col in names_in_use: scratch_col = scratch_col + '_'" *)
-Fixpoint fresh_name (fuel : nat) (c : string) (used : list string) : string :=
-  if mem c used then match fuel with O => c | S f => fresh_name f (c ++ "_")%string used end else c.
-Definition join_scratch (ca cb : list string) : string := fresh_name (S (List.length (ca ++ cb))) "_da_join_scratch_key" (ca ++ cb).
 Definition pl_join_step (declared ca cb on_a on_b : list string) (jt : jointype) (a b : table) : res table :=
   let coalesce_columns := filter (fun c => mem c cb) ca in
   let keyless := match on_a with [] => true | _ => false end in
-  let s := join_scratch ca cb in
+  let names0 := ca ++ cb in
+  let s := fresh "_da_join_scratch_key" names0 in
+  let names := if keyless then s :: names0 else names0 in
   let a' := if keyless then pl_with_columns a [(s, CPlain (lit_int 1))] else a in
   let b' := if keyless then pl_with_columns b [(s, CPlain (lit_int 1))] else b in
   let on_a' := if keyless then [s] else on_a in
@@ -352,14 +375,16 @@ Definition pl_join_step (declared ca cb on_a on_b : list string) (jt : jointype)
   match jt with
   | JRight =>
       (* "simulate right join with left join" *)
-      rbind (pl_join HLeft on_b' on_a' "_da_left_tmp" b' a') (fun r =>
+      let L := fresh_suffix "_da_left_tmp" names in
+      rbind (pl_join HLeft on_b' on_a' L b' a') (fun r =>
       pl_select declared
-        (with_columns_if r (map (fun c => (c, CPlain (PWhen (PIsNull (PCol (sfx c "_da_left_tmp"))) (PCol c) (PCol (sfx c "_da_left_tmp"))))) coalesce_columns)))
+        (with_columns_if r (map (fun c => (c, CPlain (PWhen (PIsNull (PCol (sfx c L))) (PCol c) (PCol (sfx c L))))) coalesce_columns)))
   | _ =>
       let how := match jt with JInner => HInner | JLeft => HLeft | _ => HFull end in
-      rbind (pl_join how on_a' on_b' "_da_right_tmp" a' b') (fun r =>
+      let R := fresh_suffix "_da_right_tmp" names in
+      rbind (pl_join how on_a' on_b' R a' b') (fun r =>
       pl_select declared
-        (with_columns_if r (map (fun c => (c, CPlain (coalesce_left_first c (sfx c "_da_right_tmp")))) coalesce_columns)))
+        (with_columns_if r (map (fun c => (c, CPlain (coalesce_left_first c (sfx c R)))) coalesce_columns)))
   end.
 
 (* _concat_rows_step.  ca = columns_produced of the first source = [c for c in op.columns_produced() if c != op.id_column];
@@ -377,7 +402,7 @@ Fixpoint plexec (p : op) (e : env) : res table :=
   match p with
   | OTable n cs => match dict_get e n with Some t => pl_select cs t | None => Raise end
   | OExtend s ops wd w => rbind (plexec s e) (pl_extend_step (column_names p) ops wd w)
-  | OProject s ops gb => rbind (plexec s e) (pl_project_step (column_names p) ops gb)
+  | OProject s ops gb => rbind (plexec s e) (pl_project_step (column_names p) (column_names s) ops gb)
   | OSelectRows s x => rbind (plexec s e) (pl_select_rows_step (column_names p) x)
   | OSelectCols s cs => rbind (plexec s e) (pl_select (column_names p))
   | ODropCols s cs => rbind (plexec s e) (pl_select (column_names p))
@@ -444,7 +469,6 @@ Fixpoint filter_nulls_ok (sens : string -> bool) (cs : list string) (r : list va
 Definition filter_rows_ok (sens : string -> bool) (t : table) (e : expr) : bool :=
   forallb (fun r => filter_nulls_ok sens (cols t) r e) (rows t).
 
-Definition is_reserved (c : string) : bool := str_contains "_da_" c.
 Fixpoint expr_cols (e : expr) : list string :=
   match e with
   | ECol c => [c] | EConst _ => []
@@ -466,21 +490,21 @@ Definition agg_of (e : expr) : string := match e with EOp op _ => op | _ => "" e
 Definition order_sensitive_fns : list string := ["shift"; "first"; "last"; "ffill"; "bfill"].
 
 (* one guard component per cause; each returns true when the pipeline is outside that cause *)
-Inductive cause := CVocab | CReserved | CCmpNull | CLogicNull | CJoinKeyed
+Inductive cause := CVocab | CColumnsExist | CCmpNull | CLogicNull | CJoinKeyed
                  | CSortNulls | CSortTies | CEmptyProject | CGroupKeyRepr.
 
-Definition names_of_step (p : op) : list string :=
+(* the columns a step reads (a pipeline made by the builder only reads columns its source has) *)
+Definition step_cols_needed (p : op) : list string :=
   match p with
-  | OTable _ cs => cs
-  | OExtend _ ops _ w => map fst ops ++ flat_map (fun ke => expr_cols (snd ke)) ops ++ w_part w ++ w_order w
-  | OProject _ ops gb => map fst ops ++ flat_map (fun ke => expr_cols (snd ke)) ops ++ gb
+  | OExtend _ ops _ w => flat_map (fun ke => expr_cols (snd ke)) ops ++ w_part w ++ w_order w
+  | OProject _ ops gb => flat_map (fun ke => expr_cols (snd ke)) ops ++ gb
   | OSelectRows _ x => expr_cols x
-  | OSelectCols _ cs => cs
-  | ODropCols _ _ => []
-  | ORename _ m | OMapCols _ m _ => map fst m
-  | OOrder _ _ _ _ => []
-  | OJoin _ _ _ _ _ => []
-  | OConcat _ _ idc _ _ => match idc with Some c => [c] | None => [] end
+  | _ => []
+  end.
+Definition step_source_cols (p : op) : list string :=
+  match p with
+  | OExtend s _ _ _ | OProject s _ _ | OSelectRows s _ => column_names s
+  | _ => []
   end.
 
 (* guard of ONE step, given the Pandas-flavoured results of its sources *)
@@ -491,7 +515,7 @@ Definition step_guard (c : cause) (p : op) (srcs : list table) : bool :=
       else forallb (fun ke => expr_vocab (snd ke)) ops && match w_part w, w_order w with [], [] => true | _, _ => false end
   | CVocab, OProject _ ops _, _ => forallb (fun ke => agg_vocab (snd ke)) ops
   | CVocab, OSelectRows _ x, _ => expr_vocab x
-  | CReserved, _, _ => negb (existsb is_reserved (names_of_step p))
+  | CColumnsExist, _, _ => forallb (fun c => mem c (step_source_cols p)) (step_cols_needed p)
   | CCmpNull, OExtend _ ops false _, [t] => rows_nulls_ok is_cmp_op t (map snd ops)
   | CLogicNull, OExtend _ ops false _, [t] => rows_nulls_ok is_logic_op t (map snd ops)
   | CCmpNull, OSelectRows _ x, [t] => filter_rows_ok is_cmp_op t x
@@ -513,7 +537,7 @@ Definition step_guard (c : cause) (p : op) (srcs : list table) : bool :=
   end.
 
 Definition all_causes : list cause :=
-  [CVocab; CReserved; CCmpNull; CLogicNull; CJoinKeyed; CSortNulls; CSortTies; CEmptyProject; CGroupKeyRepr].
+  [CVocab; CColumnsExist; CCmpNull; CLogicNull; CJoinKeyed; CSortNulls; CSortTies; CEmptyProject; CGroupKeyRepr].
 
 Definition sources_of (p : op) : list op :=
   match p with
